@@ -25,6 +25,16 @@ def gen(rnd, kind):
     elif kind == "search":      # (c)
         for _ in range(rnd.randrange(1, 7)):
             cmds.append((rnd.choice(SEARCH + ["history-search-backward"]),))
+    elif kind == "isearch":     # C-r / C-s on an empty prompt, a query, Enter: the buffer must be a stored entry
+        if rnd.random() < 0.5:
+            hist = list(rnd.choice([["x\ny", "echo multi\nline", "z"], ["for i in 1 2\ndo echo $i\ndone", "ls"], ["a\nb", "e\nf", "m\nn"]]))
+        cmds = [("raw", rnd.choice([b"\x12", b"\x13"]))]
+        q = rnd.choice(["e", "g", "ma", "a", "x", "l", "ech", "", "m"])
+        cmds += [("raw", ch.encode()) for ch in q]
+        for _ in range(rnd.randrange(0, 3)):
+            cmds.append(("raw", rnd.choice([b"\x12", b"\x13", b"\x1b[A", b"\x1b[B"])))
+        cmds.append(("raw", b"\r"))
+        return {"vi": False, "hist": hist, "cmds": cmds, "kind": kind, "typed": ""}
     else:                       # mixed, including commands outside the model
         for _ in range(rnd.randrange(2, 10)):
             r = rnd.random()
@@ -45,7 +55,7 @@ def check(rep, tier, seed):
         return
     info, broken = vlib.proof_step(rep, "C09")
     n = 500 if tier == "quick" else 15000
-    sess = [gen(rnd, rnd.choice(["walk", "updown", "search", "search", "mixed", "mixed"])) for _ in range(n)]
+    sess = [gen(rnd, rnd.choice(["walk", "updown", "search", "search", "mixed", "mixed", "isearch"])) for _ in range(n)]
     modelled = E.modelled_names()
     for s in sess:
         s["modelled"] = all(c[0] in modelled for c in s["cmds"])
@@ -64,7 +74,14 @@ def check(rep, tier, seed):
         steps = [o["first"]] + o["steps"]
         fails = []
         pan = [e for e in r["events"] if e["ev"] == "panic"]
-        if pan or len(steps) < len(s["cmds"]) + 1:
+        rets = [e for e in r["events"] if e["ev"] == "return"]
+        if s["kind"] == "isearch" and not pan and (rets or len(steps) >= len(s["cmds"])):
+            got = "".join(chr(c) for c in rets[0]["line"]) if rets else "".join(chr(c) for c in steps[-1][0])
+            if got != "" and got not in hist:
+                fails.append("(c) incremental search left %r in the buffer, which is not a stored entry" % got)
+            if got:
+                nontriv.add((tuple(hist), "isearch", tuple(c[1] for c in s["cmds"])))
+        elif pan or len(steps) < len(s["cmds"]) + 1:
             fails.append("(d) the session failed: %s %s" % (r["outcome"], [p["msg"] for p in pan][:1]))
         else:
             lines = ["".join(chr(c) for c in st[0]) for st in steps]
@@ -94,7 +111,7 @@ def check(rep, tier, seed):
                         nontriv.add((tuple(hist), inprog, tuple(names[nt:k + 1])))
         # non-destructive: the source is what it was
         hev = [e for e in r["events"] if e["ev"] == "hist"]
-        if hev:
+        if hev and not rets:        # (a line accepted by the final Enter of an isearch session is recorded, rightly)
             after = ["".join(chr(c) for c in l) for l in (hev[0]["lines"] or [])]
             if after != hist:
                 fails.append("the history source changed: %r -> %r" % (hist, after))
